@@ -4,6 +4,7 @@ import Gengo.Lemmas.WalkDesc
 import Gengo.Generated.Facts
 import Gengo.Lemmas.WalkIso
 import Gengo.Lemmas.FactsCheckSound
+import Gengo.Lemmas.WalkSide
 import Gengo.Driver.Universe
 /-! # C01 – the parsed type universe is structurally faithful to the Go type checker -/
 namespace Gengo.C01
@@ -50,25 +51,25 @@ theorem nameOf_anonymous (v2 : Bool) (s : Str) (h : anonPrefixes.any (fun p => p
 /-! ### every declared type of a requested package is in the universe (full model, Lemmas/WalkInv.lean) -/
 open Gengo.WalkInv
 
-/-- the type of scope object `ob` is registered under its own name and has a kind -/
+/-- the type of scope object `ob` is registered under its own name (a generic declaration: under `Foo[T]`) and has a kind -/
 def Present (F : Facts) (v2 : Bool) (u : U) (ob : GObj) : Prop :=
-  ∃ (o : Nat) (t : Obj), AL.lookup (nameOf v2 (F.str ob.ty)) u.types = some o ∧ u.objs[o]? = some t ∧ t.kind ≠ .unknown
+  ∃ (o : Nat) (t : Obj), AL.lookup (regName F v2 ob.ty) u.types = some o ∧ u.objs[o]? = some t ∧ t.kind ≠ .unknown
 
 theorem Present.mono {F : Facts} {v2 : Bool} {u u' : U} {ob : GObj} (h : Present F v2 u ob) (hg : Grows u u') : Present F v2 u' ob := by
   obtain ⟨o, t, h1, h2, h3⟩ := h
   obtain ⟨t', h4, _, h6⟩ := hg.objs o t h2
   exact ⟨o, t', hg.idx _ _ h1, h4, by rw [h6 h3]; exact h3⟩
 
-/-- a non-generic named type whose underlying node is a basic/named/map/slice node or an unnamed type node (what go/types
+/-- a named type (generic or not) whose underlying node is a basic/named/map/slice node or an unnamed type node (what go/types
 guarantees; the driver's `hyp` line checks it per case) -/
 def PlainNamed (F : Facts) (v2 : Bool) (ob : GObj) : Prop :=
-  ob.kind = .typeName ∧ ∃ und ms origUnd, F.node ob.ty = .named und ms [] origUnd ∧
+  ob.kind = .typeName ∧ ∃ und ms tps origUnd, F.node ob.ty = .named und ms tps origUnd ∧
     (isAliasUnder (F.node und) = true ∨ ∃ K kids, shape v2 (F.node und) = some (K, kids)) ∧
     (isAliasUnder (F.node und) = false → (v2 && isStructOrIface (F.node und)) = true → ∃ K kids, shape v2 (F.node origUnd) = some (K, kids))
 
 theorem addObj_present (bt : List Builtin) (F : Facts) (v2 : Bool) (fuel : Nat) (u u' : U) (ob : GObj)
     (hp : PlainNamed F v2 ob) (h : WalkInv.Inv bt u) (hf : addObj bt F v2 (fuel + 1) u ob = some u') : Present F v2 u' ob := by
-  obtain ⟨hk, und, ms, origUnd, hn, hund, horig⟩ := hp
+  obtain ⟨hk, und, ms, tps, origUnd, hn, hund, horig⟩ := hp
   unfold addObj at hf
   simp only [hk] at hf
   cases hw : walk bt F v2 (fuel + 1) u ob.ty none with
@@ -77,7 +78,7 @@ theorem addObj_present (bt : List Builtin) (F : Facts) (v2 : Bool) (fuel : Nat) 
     obtain ⟨u1, o⟩ := p
     simp only [hw, Option.map_some, Option.some.injEq] at hf
     subst hf
-    have l := walk_named_idx bt F v2 fuel u ob.ty none und ms origUnd hn hund horig u1 o h hw
+    have l := walk_named_idx bt F v2 fuel u ob.ty none und ms tps origUnd hn hund horig u1 o h hw
     have p := walk_inv bt F v2 (fuel + 1) u ob.ty none u1 o h hw
     obtain ⟨t, h1, h2⟩ := p.good.1
     exact ⟨o, t, l, h1, h2⟩
@@ -100,7 +101,7 @@ theorem addObjs_present (bt : List Builtin) (F : Facts) (v2 : Bool) (fuel : Nat)
       · exact (addObj_present bt F v2 fuel u u1 ob hp h ha).mono (addObjs_inv F v2 (fuel + 1) rest u1 u' h1 hf).2
       · exact ih u1 u' h1 hf ob hrest hp
 
-/-- **declared_types_present**: after the scan of a requested package every (non-generic) named type of its scope is
+/-- **declared_types_present**: after the scan of a requested package every named type of its scope (generic ones under `Foo[T]`) is
 in the universe: registered under its own name, with a kind – whatever was loaded before -/
 theorem scan_declared_types_present (bt : List Builtin) (F : Facts) (v2 : Bool) (fuel : Nat) (u u' : U) (p : GPkg)
     (h : WalkInv.Inv bt u) (hf : scanPkg bt F v2 (fuel + 1) u p = some u') :
@@ -122,28 +123,28 @@ theorem scan_declared_types_present (bt : List Builtin) (F : Facts) (v2 : Bool) 
 /-! ### every filled object is what its Go node says (full model, Lemmas/WalkDesc.lean) -/
 open Gengo.Loader Gengo.WalkDesc
 
-/-- **universe_faithful_v2**: in a universe built by the v2 loader for a program without generic declarations, every
+/-- **universe_faithful_v2**: in a universe built by the v2 loader (generic declarations included), every
 object that `walkType` filled from a node of the type checker's graph has that node's kind, and – attribute by
 attribute, in declaration order – references to the objects registered under the names of the node's children:
 element, key, array length, struct members with name, embedded flag and verbatim tag, parameters, results,
 variadic flag, receiver, and the underlying type of a defined type (`Desc`) -/
-theorem universe_faithful_v2 (w : World) (hng : NoGenerics w.facts) (hwf : WellFormed w.facts w.v2) (req : List Str) (st : LState)
+theorem universe_faithful_v2 (w : World) (hwf : WellFormed w.facts w.v2) (req : List Str) (st : LState)
     (h : newUniverseV2 w req = some st) (o : Nat) (ob : Obj) (g : Nat) (hob : st.u.objs[o]? = some ob) (hs : ob.src = some g) :
     Desc w.facts w.v2 st.u ob g :=
-  described (newUniverseV2_full w hng hwf req st h) o ob g hob hs
+  described (newUniverseV2_full w hwf req st h) o ob g hob hs
 
 /-- **universe_faithful_v1**: the same for the v1 `Builder` -/
-theorem universe_faithful_v1 (w : World) (hng : NoGenerics w.facts) (hwf : WellFormed w.facts w.v2) (req : List Str) (st : LState)
+theorem universe_faithful_v1 (w : World) (hwf : WellFormed w.facts w.v2) (req : List Str) (st : LState)
     (h : findTypesV1 w req = some st) (o : Nat) (ob : Obj) (g : Nat) (hob : st.u.objs[o]? = some ob) (hs : ob.src = some g) :
     Desc w.facts w.v2 st.u ob g :=
-  described (findTypesV1_full w hng hwf req st h) o ob g hob hs
+  described (findTypesV1_full w hwf req st h) o ob g hob hs
 
 /-- incremental loads keep it -/
-theorem incremental_keeps_faithful (w : World) (hng : NoGenerics w.facts) (hwf : WellFormed w.facts w.v2) (st st' : LState)
+theorem incremental_keeps_faithful (w : World) (hwf : WellFormed w.facts w.v2) (st st' : LState)
     (hinv : Full w.bt w.facts w.v2 st.u) :
     (∀ more, loadToV2 w st more = some st' → Full w.bt w.facts w.v2 st'.u) ∧
     (∀ path, addDirToV1 w st path = some st' → Full w.bt w.facts w.v2 st'.u) :=
-  ⟨fun more h => loadToV2_full w hng hwf st st' more hinv h, fun path h => addDirToV1_full w hng hwf st st' path hinv h⟩
+  ⟨fun more h => loadToV2_full w hwf st st' more hinv h, fun path h => addDirToV1_full w hwf st st' path hinv h⟩
 
 /-- **struct_fields_faithful**: an object filled from a struct node is a Struct whose members are the node's fields,
 one for one and in order: same name, same embedded flag, same tag text, and the member's type is the object
@@ -247,26 +248,84 @@ theorem generated_tables_have_kinds (t : List (String × String × String × Str
 an object that, if it was filled, was filled from a node that `walkType` files under `n` (the node go/types prints as
 `n`; for a defined type over a struct, …: its underlying node; for a method: its signature), and it says what that
 node says.  So the universe's answer for a name is the type checker's answer for the type of that name. -/
-theorem lookup_faithful_v2 (w : World) (hng : NoGenerics w.facts) (hwf : WellFormed w.facts w.v2) (hbt : BtKinds w.bt)
+theorem lookup_faithful_v2 (w : World) (hwf : WellFormed w.facts w.v2) (hbt : BtKinds w.bt)
     (req : List Str) (ms : List (List Str)) (a st : LState) (h1 : newUniverseV2 w req = some a) (h2 : loadsV2 w a ms = some st)
     (n : Name) (o : Nat) (ob : Obj) (g : Nat) (hl : AL.lookup n st.u.types = some o) (hob : st.u.objs[o]? = some ob)
     (hs : ob.src = some g) : NameFor w.facts w.v2 n g ∧ Desc w.facts w.v2 st.u ob g := by
-  have hf := loadsV2_faithful w hng hwf hbt req ms a st h1 h2
+  have hf := loadsV2_faithful w hwf hbt req ms a st h1 h2
   exact ⟨found_under_its_name ⟨hf.1.1, hf.2⟩ n o ob g hl hob hs, described hf.1 o ob g hob hs⟩
 
 /-- **lookup_faithful_v1**: the same for the v1 `Builder` (`FindTypes`, then any sequence of `AddDirTo`) -/
-theorem lookup_faithful_v1 (w : World) (hng : NoGenerics w.facts) (hwf : WellFormed w.facts w.v2) (hbt : BtKinds w.bt)
+theorem lookup_faithful_v1 (w : World) (hwf : WellFormed w.facts w.v2) (hbt : BtKinds w.bt)
     (req : List Str) (ps : List Str) (a st : LState) (h1 : findTypesV1 w req = some a) (h2 : addDirsV1 w a ps = some st)
     (n : Name) (o : Nat) (ob : Obj) (g : Nat) (hl : AL.lookup n st.u.types = some o) (hob : st.u.objs[o]? = some ob)
     (hs : ob.src = some g) : NameFor w.facts w.v2 n g ∧ Desc w.facts w.v2 st.u ob g := by
-  have hf := addDirsV1_faithful w hng hwf hbt req ps a st h1 h2
+  have hf := addDirsV1_faithful w hwf hbt req ps a st h1 h2
   exact ⟨found_under_its_name ⟨hf.1.1, hf.2⟩ n o ob g hl hob hs, described hf.1 o ob g hob hs⟩
 
-/-- the naming half needs no restriction on generics: through `walkType` itself, for any facts -/
+/-- the naming half through `walkType` itself, for any facts -/
 theorem walk_files_under_the_right_name (bt : List Builtin) (F : Facts) (v2 : Bool) (hbt : BtKinds bt) (fuel : Nat) (u u' : U)
     (g o : Nat) (hi : WalkInv.Inv bt u) (hs : SN F v2 u) (hw : walk bt F v2 fuel u g none = some (u', o)) : SN F v2 u' :=
   walk_sn bt F v2 hbt fuel u g none u' o hi hs (fun _ h => by cases h) hw
 
+
+/-! ### declarations and package records (Lemmas/WalkSide.lean) -/
+open Gengo.WalkSide
+
+/-- **declaration_recorded**: after a function, variable or constant of a scanned package has been added, it is registered
+under its name in its index as a `DeclarationOf` object whose underlying type is the object standing for the declaration's
+Go type; a constant carries its value.  (`walkType` never touches the three declaration indices: `walk_side`.) -/
+theorem declaration_recorded {bt : List Builtin} (F : Facts) (v2 : Bool) (hwf : WellFormed F v2) (fuel : Nat) (u : U)
+    (d : Decl) (n : Name) (ty : Nat) (cv : Option Str) (u' : U) (h : Full bt F v2 u)
+    (hf : addDecl bt F v2 fuel u d n ty cv = some u') :
+    ∃ (o : Nat) (ob : Obj), AL.lookup n (declIdx u' d) = some o ∧ u'.objs[o]? = some ob ∧ ob.kind = .declarationOf ∧
+      ElemIs F v2 u' ob.under ty ∧ (∀ v, cv = some v → ob.constVal = some v) :=
+  addDecl_records F v2 hwf fuel u d n ty cv u' h hf
+
+/-- **package_recorded**: after the scan of a requested package (v1 `findTypesIn`) the universe holds a record with the
+package's path, its name and its direct imports -/
+theorem package_recorded {bt : List Builtin} (F : Facts) (v2 : Bool) (fuel : Nat) (u : U) (p : GPkg) (u' : U)
+    (hf : scanPkg bt F v2 fuel u p = some u') :
+    ∃ r ∈ u'.pkgs, r.path = p.path ∧ r.name = p.name ∧ ∀ i ∈ p.imports, i ∈ r.imports :=
+  scanPkg_records F v2 fuel u p u' hf
+
+/-- `walkType` leaves the indices of functions, variables and constants alone and never changes an existing package record -/
+theorem walk_leaves_declarations_alone (bt : List Builtin) (F : Facts) (v2 : Bool) (fuel : Nat) (u u' : U) (g o : Nat) (un : Option Name)
+    (hw : walk bt F v2 fuel u g un = some (u', o)) :
+    u'.funcs = u.funcs ∧ u'.vars = u.vars ∧ u'.consts = u.consts ∧ ∀ r ∈ u.pkgs, r ∈ u'.pkgs :=
+  let s := walk_side bt F v2 fuel u g un u' o hw
+  ⟨s.funcs, s.vars, s.consts, s.pkgs⟩
+
+/-- `type G[T any] struct { X T }` in package p (v2) -/
+def genericFacts : Facts where
+  node
+    | 0 => .named 1 [] [(['T'], 2)] 1
+    | 1 => .struct [⟨['X'], false, [], 3⟩]
+    | 2 => .iface []
+    | 3 => .tparam 2
+    | _ => .other
+  str
+    | 0 => ['p', '.', 'G', '[', 'T', ' ', 'a', 'n', 'y', ']']
+    | 1 => ['s', 't', 'r', 'u', 'c', 't', '{', 'X', ' ', 'T', '}']
+    | 2 => ['a', 'n', 'y']
+    | 3 => ['T']
+    | _ => []
+
+/-- non-vacuity for generics: the walk of the generic declaration succeeds and registers it under `G[T]` -/
+example : ((walk [] genericFacts true 8 {} 0 none).map (fun r => AL.lookup (⟨['p'], ['G', '[', 'T', ']']⟩ : Name) r.1.types)) = some (some 1) := by decide
+
+theorem generic_wellFormed : WellFormed genericFacts true := by
+  refine ⟨?_⟩
+  intro g und ms tps ou h
+  match g with
+  | 0 =>
+    simp [genericFacts] at h
+    obtain ⟨rfl, _, _, rfl⟩ := h
+    exact ⟨.inr ⟨_, _, rfl⟩, fun _ _ => ⟨_, _, rfl⟩⟩
+  | 1 => simp [genericFacts] at h
+  | 2 => simp [genericFacts] at h
+  | 3 => simp [genericFacts] at h
+  | _ + 4 => simp [genericFacts] at h
 
 /-- **hypotheses_checked_per_case**: the model driver answers the `hyp` line of a correspondence case with the three
 executable checks of `Model/FactsCheck`; when they say yes, the facts the driver's loaders run on (`world st`) meet the
@@ -323,19 +382,19 @@ theorem demo_nameFor {n : Name} {g : Nat} (h : NameFor demoFacts false n g) :
     | 2 => simp [demoFacts] at hn
     | k + 3 => simp [demoFacts] at hn
 
-theorem demo_resName (c : Nat) (h1 : ∀ t, demoFacts.node c ≠ .alias t) (h2 : ∀ nm, demoFacts.node c ≠ .basic nm) :
-    KidEq demoFacts false c c := ⟨_, .byName h1 h2, .byName h1 h2⟩
+theorem demo_resName (c : Nat) (h1 : ∀ t, demoFacts.node c ≠ .alias t) (h2 : ∀ nm, demoFacts.node c ≠ .basic nm)
+    (h3 : ∀ k, demoFacts.node c ≠ .tparam k) : KidEq demoFacts false c c := ⟨false, _, .byName h1 h2 h3, .byName h1 h2 h3⟩
 
 theorem demo_consistent : Consistent demoFacts false := by
   intro n g1 g2 h1 h2
   have e11 : NodeEq demoFacts false 1 1 := by
     unfold NodeEq
     simp only [demoFacts]
-    exact .cons ⟨rfl, rfl, rfl, demo_resName 2 (by intro t h; simp [demoFacts] at h) (by intro t h; simp [demoFacts] at h)⟩ .nil
+    exact .cons ⟨rfl, rfl, rfl, demo_resName 2 (by intro t h; simp [demoFacts] at h) (by intro t h; simp [demoFacts] at h) (by intro t h; simp [demoFacts] at h)⟩ .nil
   have e22 : NodeEq demoFacts false 2 2 := by
     unfold NodeEq
     simp only [demoFacts]
-    exact demo_resName 0 (by intro t h; simp [demoFacts] at h) (by intro t h; simp [demoFacts] at h)
+    exact demo_resName 0 (by intro t h; simp [demoFacts] at h) (by intro t h; simp [demoFacts] at h) (by intro t h; simp [demoFacts] at h)
   have e33 : ∀ a b, 3 ≤ a → 3 ≤ b → NodeEq demoFacts false a b := by
     intro a b ha hb
     obtain ⟨a', rfl⟩ : ∃ a', a = a' + 3 := ⟨a - 3, by omega⟩
